@@ -71,6 +71,28 @@ class C17BF(BitField[6]):
 class C17BFO(BitField[8]):
     inner: C17BF[7:2]
     low: Field[1:0]
+
+
+# two different bitfields of the same width used as sub-bitfields (offset form and range form)
+class C17Ctl(BitField[4]):
+    en: Field[0]
+    mode: Field[3:1].Unsigned
+
+
+class C17Sta(BitField[4]):
+    en: Field[3]
+    mode: Field[2:0].Unsigned
+
+
+class C17Reg(BitField[8]):
+    ctl: C17Ctl[0]
+    sta: C17Sta[7:4]
+
+
+class C17Reg2(BitField[12]):
+    raw: Field[3:0]
+    sta: C17Sta[4]
+    ctl: C17Ctl[8]
 '''
 
 
@@ -143,6 +165,13 @@ def cells():
     for fname, lsb, ft in (("lo", 0, BIT), ("mid", 1, BV(3)), ("hi", 4, U(2)), ("sg", 3, S(3))):
         cs.append(Cell(f"bitfield-read|{fname}", [("a", BV(n))], ft, f"{{o}} <<= C17BF({{a}}).{fname}", lambda P, a, lsb=lsb, ft=ft: field(P, a, lsb, w_of(ft), ft.kind == "S"), setup=SETUP))
     cs.append(Cell("bitfield-read|nested.mid", [("a", BV(8))], BV(3), "{o} <<= C17BFO({a}).inner.mid", lambda P, a: field(P, a, 3, 3), setup=SETUP))
+    for reg, n2, subs in (("C17Reg", 8, (("ctl", 0), ("sta", 4))), ("C17Reg2", 12, (("sta", 4), ("ctl", 8)))):
+        for sub, off in subs:
+            en_pos, mode_lo = (0, 1) if sub == "ctl" else (3, 0)
+            cs.append(Cell(f"bitfield-read|{reg}.{sub}.en", [("a", BV(n2))], BIT, f"{{o}} <<= {reg}({{a}}).{sub}.en", lambda P, a, p=off + en_pos: field(P, a, p, 1), setup=SETUP))
+            cs.append(Cell(f"bitfield-read|{reg}.{sub}.mode", [("a", BV(n2))], U(3), f"{{o}} <<= {reg}({{a}}).{sub}.mode", lambda P, a, p=off + mode_lo: field(P, a, p, 3), setup=SETUP))
+        cs.append(Cell(f"bitfield-roundtrip|{reg}", [("a", BV(n2))], BV(n2), f"{{o}} <<= std.to_bits(std.from_bits[{reg}]({{a}}))", lambda P, a: a, setup=SETUP))
+        cs.append(Cell(f"bitfield-count_bits|{reg}", [], U(6), f"{{o}} <<= std.count_bits({reg})", lambda P, n2=n2: P.const(n2), setup=SETUP))
     cs.append(Cell("bitfield-read|nested.low", [("a", BV(8))], BV(2), "{o} <<= C17BFO({a}).low", lambda P, a: field(P, a, 0, 2), setup=SETUP))
     return cs
 
@@ -160,6 +189,11 @@ def write_cells():
         body = (f"{{o}} <<= {{z}}\nC17BF({{o}}).{fname} <<= {{v}}")
         cs.append(Cell(f"bitfield-write|{fname}", [("z", BV(6)), ("v", ft)], BV(6), body,
                        lambda P, z, v, hi=hi, lo=lo: setb(P, z, hi, lo, v, 6), setup=SETUP))
+    for sub, off, en_pos, mode_lo in (("ctl", 0, 0, 1), ("sta", 4, 3, 0)):
+        cs.append(Cell(f"bitfield-write|C17Reg.{sub}.en", [("z", BV(8)), ("v", BIT)], BV(8), f"{{o}} <<= {{z}}\nC17Reg({{o}}).{sub}.en <<= {{v}}",
+                       lambda P, z, v, p=off + en_pos: setb(P, z, p, p, v, 8), setup=SETUP))
+        cs.append(Cell(f"bitfield-write|C17Reg.{sub}.mode", [("z", BV(8)), ("v", U(3))], BV(8), f"{{o}} <<= {{z}}\nC17Reg({{o}}).{sub}.mode <<= {{v}}",
+                       lambda P, z, v, p=off + mode_lo: setb(P, z, p + 2, p, v, 8), setup=SETUP))
     return cs
 
 
